@@ -7,7 +7,7 @@ CONSTANTS
   NONE = NONE
   PoolSize = 1
   TxMode = TRUE
-  Dev = {"copydone_single_recv"}
+  Dev = {"reset_before_rollback"}
   MaxMsgs = 4
   Depth = 7
   ProbesLast = TRUE
